@@ -205,6 +205,10 @@ pub fn rich_generic_devs(lifetime_ok: bool) -> Vec<Dev> {
         s.variants[0].kind = Kind::Named(vec![NamedField { name: "next".into(), ty: FieldTy::Raw("Option<&'static Self>".into(), "None".into()), default_with: false }, NamedField { name: "n".into(), ty: FieldTy::U8, default_with: false }]);
         true
     }));
+    d.push(dev("generic<const N: usize> that no variant uses (the enum may stay field-less)", &["gen"], move |s| {
+        s.generics = vec![Generic::Const { name: "N".into() }];
+        true
+    }));
     d.push(dev("generic<T: Default = u8> (defaulted type parameter)", &["gen", "kind0"], move |s| {
         if !free0(s) {
             return false;
@@ -236,6 +240,10 @@ pub fn context_devs() -> Vec<Dev> {
         }),
         dev("context: a `type Result<T> = ..` alias is in scope where the enum is declared", &["ctx"], |s| {
             s.syntax.push("result-alias".into());
+            true
+        }),
+        dev("context: an iterator extension trait with `fn get(&mut self, usize)` is in scope (as itertools has)", &["ctx"], |s| {
+            s.syntax.push("iter-ext-trait".into());
             true
         }),
     ]
@@ -272,6 +280,25 @@ pub fn rare_shape_devs(n: usize, case_twin: bool) -> Vec<Dev> {
                 return false;
             }
             s.variants[i].kind = Kind::Named(vec![]);
+            true
+        }));
+    }
+    d.push(dev("v0.ident=r#type (raw identifier variant)", &["id0"], |s| {
+        if s.variants.is_empty() || s.variants.iter().any(|v| crate::spec::unraw(&v.ident) == "type") {
+            return false;
+        }
+        s.variants[0].ident = "r#type".into();
+        true
+    }));
+    if n >= 3 {
+        d.push(dev("tuple variants of DEcreasing arity: v0(u8, String), v1(bool), v2()", &["kind0", "kind1", "kind2"], |s| {
+            use crate::spec::FieldTy;
+            if s.variants.len() < 3 || s.variants.iter().take(3).any(|v| v.default || v.transparent || v.default_with) {
+                return false;
+            }
+            s.variants[0].kind = Kind::Tuple(vec![FieldTy::U8, FieldTy::Str]);
+            s.variants[1].kind = Kind::Tuple(vec![FieldTy::Bool]);
+            s.variants[2].kind = Kind::Tuple(vec![]);
             true
         }));
     }
@@ -328,7 +355,7 @@ pub fn generics_all_used(s: &EnumSpec) -> bool {
     };
     s.generics.iter().all(|g| match g {
         Generic::Type { name, .. } => has_word(name),
-        Generic::Const { name } => has_word(name),
+        Generic::Const { .. } => true, // a const parameter need not be used
         Generic::Lifetime { name } => text.contains(&format!("'{}", name)),
     })
 }
